@@ -30,12 +30,14 @@ impl super::GetFrameType for NewTokenFrame {
 
 impl super::EncodeSize for NewTokenFrame {
     fn max_encoding_size(&self) -> usize {
-        // token's length could not exceed 20
-        1 + 1 + self.token.len()
+        self.encoding_size()
     }
 
     fn encoding_size(&self) -> usize {
-        1 + 1 + self.token.len()
+        1 + VarInt::try_from(self.token.len())
+            .expect("token length must not exceed 2^62 - 1")
+            .encoding_size()
+            + self.token.len()
     }
 }
 
